@@ -126,14 +126,6 @@ def mkBox (f : String) (a : List Int) : Option (McBox α) :=
       some (normalize { s with useShrinking := shr != 0 })
   | _ => none
 
-/-- `solveLoop` of Model/McSolve.lean with `normalize` after every pass -/
-def solveLoopN (eps : α) : Nat → SolveSt α → SolveSt α
-  | 0, st => { st with stop := .maxIter }
-  | fuel + 1, st =>
-    let st' := solveBody eps st
-    let st' := { st' with s := normalize st'.s }
-    if st'.stop = .running then solveLoopN eps fuel st' else st'
-
 /-- one op on a problem; `none` = precondition violated / unknown op; second component: extra output -/
 def boxOp (s : McBox α) (op : String) (a : List Int) : Option (McBox α × String) :=
   match op, a with
@@ -164,10 +156,10 @@ def boxOp (s : McBox α) (op : String) (a : List Int) : Option (McBox α × Stri
   | "label", [i] => if i.toNat < s.n then some (s, s!"label={s.labels i.toNat} ") else none
   | "select1", [] => let r := s.selectWorkingSet; some (s, s!"i={r.1} j={r.2.1} viol={Scal.render r.2.2} ")
   | "solve", [num, shift, maxit] =>
-    -- QpSolver<QpMcBoxDecomp>::solve: the model's loop body `solveBody`, iterated as `solveLoop` does, with the
+    -- QpSolver<QpMcBoxDecomp>::solve: the model's `solveLoopWith` (= `solveLoop` for the identity, `solveLoopWith_id`) with the
     -- vectors re-tabulated after every pass (identity on the valid index ranges)
     let eps : α := Scal.ofIntShift num shift.toNat
-    let r := solveLoopN eps maxit.toNat { s := s, iter := 0, shrinkCounter := 0, stop := .running }
+    let r := solveLoopWith normalize eps maxit.toNat { s := s, iter := 0, shrinkCounter := 0, stop := .running }
     let code := match r.stop with | .running => 0 | .accuracy => 1 | .maxIter => 4 | .stuck => 99
     some (r.s, s!"it={r.iter} stop={code} acc={Scal.render r.accuracy} ")
   | _, _ => none
@@ -199,14 +191,6 @@ def mkSx (f : String) (a : List Int) : Option (McSx α) :=
   | some b => some (normalizeX { b := b, varsum := fun _ => (0.0 : α) })
   | none => none
 
-/-- `solveLoopX` of Model/McSimplex.lean with `normalizeX` after every pass -/
-def solveLoopXN (eps : α) : Nat → SolveStX α → SolveStX α
-  | 0, st => { st with stop := .maxIter }
-  | fuel + 1, st =>
-    let st' := solveBodyX eps st
-    let st' := { st' with s := normalizeX st'.s }
-    if st'.stop = .running then solveLoopXN eps fuel st' else st'
-
 def sxOp (s : McSx α) (op : String) (a : List Int) : Option (McSx α × String) :=
   match op, a with
   | "xsmo", [v, w] =>
@@ -234,7 +218,7 @@ def sxOp (s : McSx α) (op : String) (a : List Int) : Option (McSx α × String)
   | "xselect", [] => let r := s.selectWorkingSet; some (s, s!"i={r.1} j={r.2.1} viol={Scal.render r.2.2} ")
   | "xsolve", [num, shift, maxit] =>
     let eps : α := Scal.ofIntShift num shift.toNat
-    let r := solveLoopXN eps maxit.toNat { s := s, iter := 0, shrinkCounter := 0, stop := .running }
+    let r := solveLoopXWith normalizeX eps maxit.toNat { s := s, iter := 0, shrinkCounter := 0, stop := .running }
     let code := match r.stop with | .running => 0 | .accuracy => 1 | .maxIter => 4 | .stuck => 99
     some (r.s, s!"it={r.iter} stop={code} acc={Scal.render r.accuracy} ")
   | _, _ => none
